@@ -716,4 +716,21 @@ def dictRoundtrips (lc : Bool) (strip : List Nat) (dict : List (Name × Int)) : 
     | some v => v == e.2 && optNameEq (getOpt dict v) e.1
     | none => false
 
+/-! ### attribute stores -/
+
+def fieldNameIn (a : Name) : List Field → Bool
+  | [] => false
+  | f :: r => nameEq f.name a || fieldNameIn a r
+
+/-- an attribute a method of ctypes class `cls` stores on `self` refers to the C structure (it is a ctypes field of the
+    class), goes through a property setter, or is one of the committed Python-only attributes; a `?…` (unresolvable
+    setattr) never is -/
+def storeOk (py : StructTab) (props only : List (Name × Name)) (r : Triple) : Bool :=
+  fieldNameIn r.2.2 (fieldsOf r.1 py) || memPair r.1 r.2.2 props || memPair r.1 r.2.2 only
+
+def badStores (py : StructTab) (props only : List (Name × Name)) : List Triple → List (Name × Name)
+  | [] => []
+  | r :: rest => if storeOk py props only r then badStores py props only rest
+                 else (r.1, r.2.2) :: badStores py props only rest
+
 end RV.Layout
